@@ -17,5 +17,5 @@ def jobs(tier, seed):
                     range(1, T(tier, 4, 6) + 1), T(tier, 60, 400), 'response "HTTP/1.1 200 " + {n} symbolic bytes + ' + repr(suf), 3)
         J += deepen(P, G, f'target-{len(suf)}', lambda n, suf=suf: sc('req', n, prefix=b'GET /', suffix=b' HTTP/1.1' + suf, api='parse', cap=1),
                     range(1, T(tier, 4, 6) + 1), T(tier, 60, 400), 'request "GET /" + {n} symbolic bytes + " HTTP/1.1" + ' + repr(suf), 3)
-    J += sliding_families(P, G, tier, step=T(tier, 3, 1), pool=T(tier, ('req-post', 'resp-fold'), None))
+    J += sliding_families(P, G, tier, step=T(tier, 2, 1), pool=T(tier, ('resp-fold',), None))
     return J
